@@ -1,8 +1,6 @@
-(* C20 — strconv.Quote / lexer.parseString round trip.
-   [quote_safe s]: every byte is a byte, and every valid rune of s that is >= 0x80 and not printable
-   (strconv.IsPrint) is below U+10000 and is not followed by an ASCII hexadecimal digit.
-   For such s the lexer reads the quoted text back as exactly s; the two excluded shapes are the
-   defect F-C20-3 (witnesses in Properties/C20.v). *)
+(* C20 — ast.formatString / lexer.parseString round trip: for EVERY byte string s the lexer reads the
+   quoted text back as exactly s.  (With strconv.Quote this failed for non-printable runes: \uXXXX
+   before a hex digit and \UXXXXXXXX, defect F-C20-3, repaired: \u with all eight digits.) *)
 From Coq Require Import ZifyBool.
 From Verif Require Import Lib.Base Lib.Utf8 Gen.Prec Model.ExprAst Model.ExprParser Model.Printer Proofs.PrinterLex.
 
@@ -10,23 +8,8 @@ Ltac dlia := Z.to_euclidean_division_equations; lia.
 
 Definition byte_ok (b : Z) : bool := (0 <=? b) && (b <? 256).
 
-Fixpoint quote_safe_fuel (fuel : nat) (s : bytes) : bool :=
-  match fuel with
-  | O => true
-  | S k =>
-    match s with
-    | [] => true
-    | b0 :: _ =>
-      let '(r, w) := if b0 <? 128 then (b0, 1) else decode_rune s in
-      let tl := zdrop w s in
-      (if (w =? 1) && (r =? rune_error) then true
-       else if (128 <=? r) && negb (is_print r) then (r <? 65536) && (hex_digit (ch tl) <? 0)
-       else true)
-      && quote_safe_fuel k tl
-    end
-  end.
-
-Definition quote_safe (s : bytes) : bool := forallb byte_ok s && quote_safe_fuel (length s) s.
+(* every list element is a byte: the only condition (after the repair of F-C20-3) *)
+Definition quote_safe (s : bytes) : bool := forallb byte_ok s.
 
 (* ---------- hex digits ---------- *)
 Lemma hex_digit_hexdig n : 0 <= n < 16 -> hex_digit (hexdig n) = n.
@@ -99,14 +82,16 @@ Proof.
   replace (d1 <? 0) with false by lia. replace (d2 <? 0) with false by lia. reflexivity.
 Qed.
 
-(* \u + four lower-case hex digits, followed by something that is not a hex digit *)
-Lemma ps_u F a b c d Y acc : 0 <= a < 16 -> 0 <= b < 16 -> 0 <= c < 16 -> 0 <= d < 16 ->
-  hex_digit (ch Y) < 0 ->
-  valid_rune (((a * 16 + b) * 16 + c) * 16 + d) = true ->
-  parse_string (S F) 34 (92 :: 117 :: hexdig a :: hexdig b :: hexdig c :: hexdig d :: Y) acc
-  = parse_string F 34 Y (rev (encode_rune (((a * 16 + b) * 16 + c) * 16 + d)) ++ acc).
+(* \u + eight lower-case hex digits: the lexer stops after the eighth by itself *)
+Definition hex8 (a b c d e f g h : Z) : Z := ((((((a * 16 + b) * 16 + c) * 16 + d) * 16 + e) * 16 + f) * 16 + g) * 16 + h.
+
+Lemma ps_u F a b c d e f g h Y acc :
+  0 <= a < 16 -> 0 <= b < 16 -> 0 <= c < 16 -> 0 <= d < 16 -> 0 <= e < 16 -> 0 <= f < 16 -> 0 <= g < 16 -> 0 <= h < 16 ->
+  valid_rune (hex8 a b c d e f g h) = true ->
+  parse_string (S F) 34 (92 :: 117 :: hexdig a :: hexdig b :: hexdig c :: hexdig d :: hexdig e :: hexdig f :: hexdig g :: hexdig h :: Y) acc
+  = parse_string F 34 Y (rev (encode_rune (hex8 a b c d e f g h)) ++ acc).
 Proof.
-  intros Ha Hb Hc Hd HY Hv. cbn [parse_string ch nxt].
+  intros Ha Hb Hc Hd He Hf Hg Hh Hv. cbn [parse_string ch nxt].
   change ((92 =? 34) || (92 =? 0)) with false. change ((92 =? 13) || (92 =? 10)) with false.
   change (negb (92 =? 92)) with false. cbn iota.
   change (117 =? 110) with false. change (117 =? 116) with false. change (117 =? 114) with false.
@@ -115,8 +100,9 @@ Proof.
   rewrite hex_digit_hexdig by assumption. replace (a <? 0) with false by lia.
   cbn [more_hex ch nxt]. rewrite !hex_digit_hexdig by assumption.
   replace (b <? 0) with false by lia. replace (c <? 0) with false by lia. replace (d <? 0) with false by lia.
-  replace (hex_digit (ch Y) <? 0) with true by lia.
-  rewrite Hv. reflexivity.
+  replace (e <? 0) with false by lia. replace (f <? 0) with false by lia. replace (g <? 0) with false by lia.
+  replace (h <? 0) with false by lia.
+  unfold hex8 in Hv. rewrite Hv. reflexivity.
 Qed.
 
 (* ---------- UTF-8: a well-formed sequence decodes to a rune that encodes to the same bytes ---------- *)
@@ -176,7 +162,10 @@ Qed.
 (* ---------- one chunk of strconv.Quote's output, read back ---------- *)
 Lemma hexn2 r : hexn 2 r = [hexdig ((r / 16) mod 16); hexdig (r mod 16)].
 Proof. reflexivity. Qed.
-Lemma hexn4 r : hexn 4 r = [hexdig ((r / 16 / 16 / 16) mod 16); hexdig ((r / 16 / 16) mod 16); hexdig ((r / 16) mod 16); hexdig (r mod 16)].
+Lemma hexn8 r : hexn 8 r =
+  [hexdig ((r / 16 / 16 / 16 / 16 / 16 / 16 / 16) mod 16); hexdig ((r / 16 / 16 / 16 / 16 / 16 / 16) mod 16);
+   hexdig ((r / 16 / 16 / 16 / 16 / 16) mod 16); hexdig ((r / 16 / 16 / 16 / 16) mod 16);
+   hexdig ((r / 16 / 16 / 16) mod 16); hexdig ((r / 16 / 16) mod 16); hexdig ((r / 16) mod 16); hexdig (r mod 16)].
 Proof. reflexivity. Qed.
 
 Lemma ps_xbyte F b Y acc : byte_ok b = true ->
@@ -227,109 +216,73 @@ Qed.
 Lemma esc_rune r enc :
   128 <= r -> valid_rune r = true -> encode_rune r = enc -> forallb (fun b => 128 <=? b) enc = true -> enc <> [] ->
   exists m, (1 <= m <= length (escaped_rune r))%nat /\
-  forall F Y acc, (is_print r = false -> r < 65536 /\ hex_digit (ch Y) < 0) ->
-    parse_string (m + F) 34 (escaped_rune r ++ Y) acc = parse_string F 34 Y (rev enc ++ acc)
-    /\ hex_digit (ch (escaped_rune r ++ Y)) < 0.
+  forall F Y acc, parse_string (m + F) 34 (escaped_rune r ++ Y) acc = parse_string F 34 Y (rev enc ++ acc).
 Proof.
   intros Hr Hv He Hhigh Hne. unfold escaped_rune.
   replace ((r =? 34) || (r =? 92)) with false by lia.
   destruct (is_print r) eqn:Ep.
   - rewrite He. exists (length enc). split; [destruct enc; [congruence | cbn [length]; lia]|].
-    intros F Y acc _. split.
-    + apply ps_plains. clear -Hhigh. induction enc as [|x l IH]; [reflexivity|].
-      cbn [forallb] in *. apply andb_prop in Hhigh as [Hx Hl]. rewrite (IH Hl), andb_true_r. unfold plain. lia.
-    + destruct enc as [|x l]; [congruence|]. cbn [forallb] in Hhigh. apply andb_prop in Hhigh as [Hx _].
-      cbn [app ch]. rewrite hex_digit_high by lia. lia.
+    intros F Y acc.
+    apply ps_plains. clear -Hhigh. induction enc as [|x l IH]; [reflexivity|].
+    cbn [forallb] in *. apply andb_prop in Hhigh as [Hx Hl]. rewrite (IH Hl), andb_true_r. unfold plain. lia.
   - replace (r =? 7) with false by lia. replace (r =? 8) with false by lia. replace (r =? 12) with false by lia.
     replace (r =? 10) with false by lia. replace (r =? 13) with false by lia. replace (r =? 9) with false by lia.
     replace (r =? 11) with false by lia. replace ((r <? 32) || (r =? 127)) with false by lia.
-    rewrite Hv. exists 1%nat. split; [destruct (r <? 65536); cbn [length]; lia|].
-    intros F Y acc Hsafe. destruct (Hsafe eq_refl) as [H16 HY].
-    replace (r <? 65536) with true by lia.
-    split; [|reflexivity].
-    rewrite hexn4. cbn [app plus].
-    assert (Hrr : (((r / 16 / 16 / 16) mod 16 * 16 + (r / 16 / 16) mod 16) * 16 + (r / 16) mod 16) * 16 + r mod 16 = r) by dlia.
-    rewrite ps_u; try dlia; try assumption; rewrite Hrr; [|exact Hv].
+    exists 1%nat. split; [cbn [length]; lia|].
+    intros F Y acc.
+    assert (Hmax : r <= 1114111) by (unfold valid_rune in Hv; lia).
+    rewrite hexn8. cbn [app plus].
+    assert (Hrr : hex8 ((r / 16 / 16 / 16 / 16 / 16 / 16 / 16) mod 16) ((r / 16 / 16 / 16 / 16 / 16 / 16) mod 16)
+                    ((r / 16 / 16 / 16 / 16 / 16) mod 16) ((r / 16 / 16 / 16 / 16) mod 16)
+                    ((r / 16 / 16 / 16) mod 16) ((r / 16 / 16) mod 16) ((r / 16) mod 16) (r mod 16) = r)
+      by (unfold hex8; dlia).
+    rewrite ps_u; try dlia; rewrite Hrr; [|exact Hv].
     rewrite He. reflexivity.
-Qed.
-
-Lemma esc_rune_head r enc Y :
-  128 <= r -> encode_rune r = enc -> forallb (fun b => 128 <=? b) enc = true -> enc <> [] ->
-  hex_digit (ch (escaped_rune r ++ Y)) < 0.
-Proof.
-  intros Hr He Hhigh Hne. unfold escaped_rune.
-  replace ((r =? 34) || (r =? 92)) with false by lia.
-  destruct (is_print r).
-  - rewrite He. destruct enc as [|x l]; [congruence|]. cbn [forallb] in Hhigh. apply andb_prop in Hhigh as [Hx _].
-    cbn [app ch]. rewrite hex_digit_high by lia. lia.
-  - replace (r =? 7) with false by lia. replace (r =? 8) with false by lia. replace (r =? 12) with false by lia.
-    replace (r =? 10) with false by lia. replace (r =? 13) with false by lia. replace (r =? 9) with false by lia.
-    replace (r =? 11) with false by lia. replace ((r <? 32) || (r =? 127)) with false by lia.
-    destruct (_ <? 65536); reflexivity.
 Qed.
 
 Lemma encode_nonnil r : encode_rune r <> [].
 Proof. unfold encode_rune. destruct (_ || _ || _); repeat match goal with |- (if ?c then _ else _) <> _ => destruct c end; discriminate. Qed.
 
-(* the first byte of the quoted remainder is no hex digit unless the remainder starts with one *)
-Lemma qb_head k tl rest : forallb byte_ok tl = true -> hex_digit (ch tl) < 0 ->
-  hex_digit (ch (quote_body k tl ++ 34 :: rest)) < 0.
-Proof.
-  intros Hb Hh. destruct k as [|k]; [reflexivity|]. destruct tl as [|b tl']; [reflexivity|].
-  cbn [forallb] in Hb. apply andb_prop in Hb as [Hb0 Hb']. cbn [ch] in Hh.
-  cbn [quote_body].
-  destruct (b <? 128) eqn:E128.
-  - replace ((1 =? 1) && (b =? rune_error)) with false by (unfold rune_error; lia).
-    rewrite <- app_assoc. apply (proj2 (esc_ascii 0 b _ [] Hb0 ltac:(lia))). exact Hh.
-  - destruct (decode_rune (b :: tl')) as [r w] eqn:Hd.
-    destruct ((w =? 1) && (r =? rune_error)) eqn:Herr; [reflexivity|].
-    destruct (decode_valid b tl' r w E128 Hd Herr) as (Hr & Hv & Hs & Hhigh).
-    rewrite <- app_assoc. eapply esc_rune_head; [exact Hr | reflexivity | exact Hhigh | apply encode_nonnil].
-Qed.
-
 Lemma forallb_app_inv {A} (p : A -> bool) a b : forallb p (a ++ b) = true -> forallb p a = true /\ forallb p b = true.
 Proof. rewrite forallb_app. intros H. apply andb_prop in H. exact H. Qed.
 
 (* ---------- the round trip ---------- *)
-Lemma quote_rt : forall n s, forallb byte_ok s = true -> quote_safe_fuel n s = true -> (length s <= n)%nat ->
+Lemma quote_rt : forall n s, forallb byte_ok s = true -> (length s <= n)%nat ->
   forall rest acc F, (length (quote_body n s) < F)%nat ->
   parse_string F 34 (quote_body n s ++ 34 :: rest) acc = Some (rev acc ++ s, 34 :: rest).
 Proof.
-  induction n as [|n IH]; intros s Hb Hs Hlen rest acc F HF.
+  induction n as [|n IH]; intros s Hb Hlen rest acc F HF.
   - destruct s; [|cbn in Hlen; lia]. cbn [quote_body app] in *. destruct F; [cbn in HF; lia|].
     rewrite ps_end, app_nil_r. reflexivity.
   - destruct s as [|b0 s'].
     + cbn [quote_body app] in *. destruct F; [cbn in HF; lia|]. rewrite ps_end, app_nil_r. reflexivity.
     + cbn [forallb] in Hb. apply andb_prop in Hb as [Hb0 Hb'].
-      cbn [quote_body] in *. cbn [quote_safe_fuel] in Hs. cbn [length] in Hlen.
+      cbn [quote_body] in *. cbn [length] in Hlen.
       destruct (b0 <? 128) eqn:E128.
       * (* ASCII *)
         replace ((1 =? 1) && (b0 =? rune_error)) with false in * by (unfold rune_error; lia).
         change (zdrop 1 (b0 :: s')) with s' in *.
-        apply andb_prop in Hs as [_ Hs'].
         rewrite <- app_assoc. rewrite app_length in HF.
         assert (Hne : (1 <= length (escaped_rune b0))%nat).
         { unfold escaped_rune. repeat match goal with |- context [if ?c then _ else _] => destruct c end;
             try (cbn [length]; lia). pose proof (encode_nonnil b0). destruct (encode_rune b0); [congruence | cbn [length]; lia]. }
         destruct F as [|F]; [lia|].
         rewrite (proj1 (esc_ascii F b0 _ acc Hb0 ltac:(lia))).
-        rewrite (IH s' Hb' Hs' ltac:(lia) rest (b0 :: acc) F ltac:(lia)).
+        rewrite (IH s' Hb' ltac:(lia) rest (b0 :: acc) F ltac:(lia)).
         cbn [rev]. rewrite <- app_assoc. reflexivity.
       * destruct (decode_rune (b0 :: s')) as [r w] eqn:Hd.
         destruct ((w =? 1) && (r =? rune_error)) eqn:Herr.
         -- (* an invalid byte: \xHH *)
            assert (Hw : w = 1) by lia. subst w.
            change (zdrop 1 (b0 :: s')) with s' in *.
-           apply andb_prop in Hs as [_ Hs'].
            cbn [app length] in *. rewrite app_length in HF. rewrite <- app_assoc.
            destruct F as [|F]; [lia|].
            rewrite (ps_xbyte F b0 _ acc Hb0).
-           rewrite (IH s' Hb' Hs' ltac:(lia) rest (b0 :: acc) F ltac:(rewrite hexn2 in HF; cbn [length] in HF; lia)).
+           rewrite (IH s' Hb' ltac:(lia) rest (b0 :: acc) F ltac:(rewrite hexn2 in HF; cbn [length] in HF; lia)).
            cbn [rev]. rewrite <- app_assoc. reflexivity.
         -- (* a well-formed multi-byte rune *)
            destruct (decode_valid b0 s' r w E128 Hd Herr) as (Hr & Hv & Hsplit & Hhigh).
            set (tl := zdrop w (b0 :: s')) in *.
-           apply andb_prop in Hs as [Hsafe Hs'].
            assert (Hbs : forallb byte_ok (encode_rune r ++ tl) = true) by (rewrite <- Hsplit; cbn [forallb]; rewrite Hb0, Hb'; reflexivity).
            apply forallb_app_inv in Hbs as [_ Hbtl].
            assert (Hlen' : S (length s') = (length (encode_rune r) + length tl)%nat).
@@ -339,20 +292,18 @@ Proof.
            destruct (esc_rune r (encode_rune r) Hr Hv eq_refl Hhigh Hne) as (m & Hm & Hstep).
            rewrite <- app_assoc. rewrite app_length in HF.
            replace F with (m + (F - m))%nat by lia.
-           rewrite (proj1 (Hstep (F - m)%nat (quote_body n tl ++ 34 :: rest) acc
-                      ltac:(intros Hnp; rewrite Hnp in Hsafe; replace (128 <=? r) with true in Hsafe by lia;
-                            cbn [andb negb] in Hsafe; split; [lia | apply qb_head; [exact Hbtl | lia]]))).
-           rewrite (IH tl Hbtl Hs' ltac:(lia) rest _ (F - m)%nat ltac:(lia)).
+           rewrite (Hstep (F - m)%nat (quote_body n tl ++ 34 :: rest) acc).
+           rewrite (IH tl Hbtl ltac:(lia) rest _ (F - m)%nat ltac:(lia)).
            rewrite rev_app_distr, rev_involutive, <- app_assoc, <- Hsplit. reflexivity.
 Qed.
 
-(* MAIN: the lexer reads strconv.Quote(s) back as s, for every quote_safe s *)
+(* MAIN: the lexer reads formatString(s) back as s, for every byte string s *)
 Theorem string_roundtrip : forall s, quote_safe s = true ->
   forall rest sp, scan_body (quote s ++ rest) sp = STok (TString s) sp rest.
 Proof.
-  intros s Hq rest sp. unfold quote_safe in Hq. apply andb_prop in Hq as [Hb Hs].
+  intros s Hb rest sp. unfold quote_safe in Hb.
   unfold quote. cbn [app]. rewrite scan_quote. rewrite <- app_assoc. cbn [app].
-  rewrite (quote_rt (length s) s Hb Hs (le_n _) rest []).
+  rewrite (quote_rt (length s) s Hb (le_n _) rest []).
   - cbn [rev app ch nxt]. reflexivity.
   - rewrite app_length. cbn [length]. lia.
 Qed.
